@@ -23,6 +23,7 @@ import yaml
 from nemoguardrails.colang.v2_x.lang.colang_ast import Flow, Import
 from nemoguardrails.colang.v2_x.lang.grammar.load import load_lark_parser
 from nemoguardrails.colang.v2_x.lang.transformer import ColangTransformer
+from nemoguardrails.colang.v2_x.runtime.errors import ColangSyntaxError
 from nemoguardrails.utils import CustomDumper
 
 log = logging.getLogger(__name__)
@@ -147,9 +148,13 @@ class ColangParser:
                 else:
                     # Anything else would be dropped silently, together with the flows
                     # that are defined inside it (e.g. under a module level `if`).
-                    line = (element["_source"] or {}).get("line", "?")
+                    source = element.get("_source")
+                    line = getattr(source, "line", None) or (
+                        source.get("line") if isinstance(source, dict) else None
+                    )
                     raise ColangSyntaxError(
-                        f"Only flow definitions and imports are allowed outside of a flow (line {line})"
+                        "Only flow definitions and imports are allowed outside of a flow"
+                        + (f" (line {line})" if line else "")
                     )
 
         return result
